@@ -645,6 +645,13 @@ def big_bits2(m, mt, args, tys, dty):
         return x.bit_length()
     if BITS_MODE[0] == 'table':
         return bits_table(m, x)
+    if BITS_MODE[0] == 'fixed':
+        # harness promises 2^(b-1) <= x < 2^b (b = BITS_MODE[1]); verified here with one query
+        b = BITS_MODE[1]
+        inside = z3.And(x >= 2 ** (b - 1), x < 2 ** b) if b > 0 else (x == 0)
+        if m.feasible(z3.Not(inside)):
+            raise Unsupported('bits: value not confined to bit length %d' % b)
+        return b
     return _orig_bits(m, mt, args, tys, dty)
 
 
